@@ -68,6 +68,11 @@ def check(ctx: Ctx) -> None:
     row_sources_sanctioned(ctx)
     parsers_keep_every_entry(ctx)
     hashers_hash_everything(ctx)
+    # "a broken table is never reported as an empty one": hint-less recovery sees every metadata file only if the listing is complete
+    from .c20 import r10_listing_exhaustive
+    r10_listing_exhaustive(ctx, "C14.R9")
+    from .c20 import r12_stream_faithful
+    r12_stream_faithful(ctx, "C14.R10")
 
 
 ROW_SOURCE_OWNERS: Dict[str, str] = {
